@@ -17,16 +17,16 @@ from mc.fakes import FakeResponse, patched_http
 ID = 'C28'
 LEVEL = 'fault_enumeration'
 RULE = ('every outcome sequence of length L over {ok,404,500-permanent,ConnectionError} x n in 1..4 nodes x '
-        'method in {get,post,request}; non-trivial = sequence with at least one failure followed by a later request '
+        'entry in {request, get, post, the ShellQuery layer alternating monitor streams and GETs}; non-trivial = sequence with at least one failure followed by a later request '
         '(distinct by (n, sequence))')
-BOUND = {'quick': 'n<=4, L=7, 4 outcomes', 'thorough': 'n<=4, L=9, 4 outcomes, 3 entry methods'}
+BOUND = {'quick': 'n<=4, L=7, 4 outcomes, entries: request and ShellQuery (monitor/GET)', 'thorough': 'n<=4, L=9, 4 outcomes, 4 entry methods'}
 ASSUMPTIONS = ['requests.request and sleep are the only environment seams of RpcNode.request']
 OUTCOMES = ['ok', 'e404', 'e500', 'exc']
 
 
 def shards(tier, seed):
     L = 7 if tier == 'quick' else 9
-    methods = ['request'] if tier == 'quick' else ['request', 'get', 'post']
+    methods = ['request', 'shell'] if tier == 'quick' else ['request', 'get', 'post', 'shell']
     return [(n, L, first, m) for n in (1, 2, 3, 4) for first in OUTCOMES for m in methods]
 
 
@@ -52,12 +52,24 @@ def drive(n, seq, method='request'):
         raise requests.exceptions.ConnectionError('boom')
 
     client = RpcMultiNode(uris)
+    shell = None
+    if method == 'shell':
+        # the same client behind the real query layer: plain GETs and streaming monitor subscriptions alternate
+        from pytezos.rpc.shell import ShellQuery
+        shell = ShellQuery(node=client)
+    nreq = 0
     with patched_http(fake_request, lambda d: None):
         for o in it:
             cur['o'] = o
             before = len(hits)
             try:
-                if method == 'request':
+                nreq += 1
+                if method == 'shell':
+                    if nreq % 2:
+                        shell.monitor.bootstrapped()
+                    else:
+                        shell.chains.main.chain_id()
+                elif method == 'request':
                     client.request('GET', 'p')
                 elif method == 'get':
                     client.get('p')
